@@ -33,8 +33,9 @@ EXTENDS Integers, Sequences, FiniteSets, TLC
 CONSTANTS MaxGens, MaxLen, Prefetch, MaxK, Reqs
 
 VARIABLES gens, yielded, delivered, ended, marker, threadAlive, cur, req, shutdown, lastRet,
-          mine        \* [Reqs -> generator the client installed itself, 0 = none]: a client's requests are about ITS generator
-vars == <<gens, yielded, delivered, ended, marker, threadAlive, cur, req, shutdown, lastRet, mine>>
+          mine,       \* [Reqs -> generator the client installed itself, 0 = none]: a client's requests are about ITS generator
+          taken       \* [Reqs -> item numbers the open next-batch request has taken from the queue so far]
+vars == <<gens, yielded, delivered, ended, marker, threadAlive, cur, req, shutdown, lastRet, mine, taken>>
 
 NoReq == [kind |-> "none", g |-> 0, k |-> 0]
 G == 1..Len(gens)
@@ -43,37 +44,38 @@ Init ==
   /\ gens = <<>> /\ yielded = <<>> /\ delivered = <<>> /\ ended = <<>> /\ marker = <<>> /\ threadAlive = <<>>
   /\ cur = 0 /\ req = [r \in Reqs |-> NoReq] /\ shutdown = FALSE /\ lastRet = <<>>
   /\ mine = [r \in Reqs |-> 0]
+  /\ taken = [r \in Reqs |-> <<>>]
 
 \* ---------------------------------------------------------------- prefetch thread
 Yield(g) ==                       \* next(generator) returned item yielded[g]+1
   /\ g \in G /\ ended[g] = "run" /\ threadAlive[g]
   /\ yielded[g] < gens[g].len /\ gens[g].fail # yielded[g] + 1
   /\ yielded' = [yielded EXCEPT ![g] = @ + 1]
-  /\ UNCHANGED <<gens, delivered, ended, marker, threadAlive, cur, req, shutdown, lastRet, mine>>
+  /\ UNCHANGED <<gens, delivered, ended, marker, threadAlive, cur, req, shutdown, lastRet, mine, taken>>
 
 \* a next(generator) that was in flight when the generator was stopped completes afterwards: the item
 \* is discarded by put() (the queue is done), nothing observable changes
 LateYield(g) ==
   /\ g \in G /\ ended[g] = "stop" /\ threadAlive[g]
-  /\ UNCHANGED <<gens, yielded, delivered, ended, marker, threadAlive, cur, req, shutdown, lastRet, mine>>
+  /\ UNCHANGED <<gens, yielded, delivered, ended, marker, threadAlive, cur, req, shutdown, lastRet, mine, taken>>
 
 GenEnd(g, how) ==                 \* StopIteration / exception out of the generator
   /\ g \in G /\ ended[g] = "run" /\ threadAlive[g]
   /\ how \in {"done", "fail"}
   /\ IF gens[g].fail = yielded[g] + 1 THEN how = "fail" ELSE (how = "done" /\ yielded[g] = gens[g].len)
   /\ ended' = [ended EXCEPT ![g] = how]
-  /\ UNCHANGED <<gens, yielded, delivered, marker, threadAlive, cur, req, shutdown, lastRet, mine>>
+  /\ UNCHANGED <<gens, yielded, delivered, marker, threadAlive, cur, req, shutdown, lastRet, mine, taken>>
 
 ThreadEnd(g) ==                   \* enqueue_from_iterator returned / raised
   /\ g \in G /\ threadAlive[g] /\ ended[g] # "run"
   /\ threadAlive' = [threadAlive EXCEPT ![g] = FALSE]
-  /\ UNCHANGED <<gens, yielded, delivered, ended, marker, cur, req, shutdown, lastRet, mine>>
+  /\ UNCHANGED <<gens, yielded, delivered, ended, marker, cur, req, shutdown, lastRet, mine, taken>>
 
 \* ---------------------------------------------------------------- init_generator
 InitCall(r) ==
   /\ req[r] = NoReq /\ Len(gens) < MaxGens
   /\ req' = [req EXCEPT ![r] = [kind |-> "init", g |-> 0, k |-> 0]]
-  /\ UNCHANGED <<gens, yielded, delivered, ended, marker, threadAlive, cur, shutdown, lastRet, mine>>
+  /\ UNCHANGED <<gens, yielded, delivered, ended, marker, threadAlive, cur, shutdown, lastRet, mine, taken>>
 
 \* the handler installs the new generator (under the generator lock): the previous generator,
 \* if it had not ended, has been stopped before
@@ -87,13 +89,13 @@ Install(r, len, fail) ==
   /\ cur' = Len(gens) + 1
   /\ req' = [req EXCEPT ![r].g = Len(gens) + 1]
   /\ mine' = [mine EXCEPT ![r] = Len(gens) + 1]
-  /\ UNCHANGED <<shutdown, lastRet>>
+  /\ UNCHANGED <<shutdown, lastRet, taken>>
 
 InitRet(r, ok) ==
   /\ req[r].kind = "init"
   /\ IF ok THEN req[r].g # 0 ELSE (req[r].g = 0 /\ shutdown)   \* refused: "Shutdown requested, cannot take new generator"
   /\ req' = [req EXCEPT ![r] = NoReq]
-  /\ UNCHANGED <<gens, yielded, delivered, ended, marker, threadAlive, cur, shutdown, lastRet, mine>>
+  /\ UNCHANGED <<gens, yielded, delivered, ended, marker, threadAlive, cur, shutdown, lastRet, mine, taken>>
 
 \* _stop_prefetch of generator g (by a newer init, by stop_prefetch, by shutdown): only an
 \* unexhausted generator is stopped
@@ -101,46 +103,56 @@ Stop(g) ==
   /\ g \in G /\ g = cur
   /\ ended[g] = "run" \/ (ended[g] \in {"done", "fail"} /\ marker[g] = {})
   /\ ended' = [ended EXCEPT ![g] = "stop"]          \* whatever was not delivered yet is replaced by a retriable error
-  /\ UNCHANGED <<gens, yielded, delivered, marker, threadAlive, cur, req, shutdown, lastRet, mine>>
+  /\ UNCHANGED <<gens, yielded, delivered, marker, threadAlive, cur, req, shutdown, lastRet, mine, taken>>
 
 Shutdown ==
   /\ ~shutdown /\ shutdown' = TRUE
-  /\ UNCHANGED <<gens, yielded, delivered, ended, marker, threadAlive, cur, req, lastRet, mine>>
+  /\ UNCHANGED <<gens, yielded, delivered, ended, marker, threadAlive, cur, req, lastRet, mine, taken>>
 
 \* ---------------------------------------------------------------- next_batch_from_generator
 NextCall(r, k) ==
   /\ req[r] = NoReq /\ k \in 1..MaxK
   /\ req' = [req EXCEPT ![r] = [kind |-> "next", g |-> IF mine[r] # 0 THEN mine[r] ELSE cur, k |-> k]]
+  /\ taken' = [taken EXCEPT ![r] = <<>>]
   /\ UNCHANGED <<gens, yielded, delivered, ended, marker, threadAlive, cur, shutdown, lastRet, mine>>
+
+\* the handler takes the next item out of the prefetch queue (get_batch dequeues one element at a time; two requests
+\* reading the same generator interleave here, and their responses may leave in either order)
+Take(r) ==
+  /\ req[r].kind = "next" /\ req[r].g # 0
+  /\ LET g == req[r].g IN
+       /\ Len(taken[r]) < req[r].k /\ delivered[g] < yielded[g]
+       /\ taken' = [taken EXCEPT ![r] = Append(@, delivered[g] + 1)]
+       /\ delivered' = [delivered EXCEPT ![g] = @ + 1]
+  /\ UNCHANGED <<gens, yielded, ended, marker, threadAlive, cur, req, shutdown, lastRet, mine>>
 
 \* mk: "none" | "stop" (StopIteration) | "exc" (the generator's exception) | "timeout" (retriable)
 NextRet(r, n, mk) ==
   /\ req[r].kind = "next"
   /\ LET g == req[r].g IN
      IF g = 0
-     THEN n = 0 /\ mk = "timeout" /\ UNCHANGED <<delivered, marker>>      \* no generator installed
-     ELSE /\ n >= 0 /\ n <= req[r].k
-          /\ delivered[g] + n <= yielded[g]                          \* only items already yielded, in order
-          /\ delivered' = [delivered EXCEPT ![g] = @ + n]
+     THEN n = 0 /\ mk = "timeout" /\ UNCHANGED marker                  \* no generator installed
+     ELSE /\ n = Len(taken[r])                                       \* exactly the items this request took, in order
           /\ IF mk = "none"
              THEN /\ n = req[r].k                                    \* a full batch, or ...
                   /\ UNCHANGED marker
              ELSE /\ ended[g] # "run"
-                  /\ CASE mk = "stop"    -> ended[g] = "done" /\ delivered[g] + n = yielded[g] /\ r \notin marker[g]
-                       [] mk = "exc"     -> ended[g] = "fail" /\ delivered[g] + n = yielded[g] /\ r \notin marker[g]
+                  \* ... fewer only at the end: everything the generator yielded has been taken by someone
+                  /\ CASE mk = "stop"    -> ended[g] = "done" /\ delivered[g] = yielded[g] /\ r \notin marker[g]
+                       [] mk = "exc"     -> ended[g] = "fail" /\ delivered[g] = yielded[g] /\ r \notin marker[g]
                        [] mk = "timeout" -> ended[g] = "stop" \/ shutdown
                        [] OTHER -> FALSE
                   /\ marker' = [marker EXCEPT ![g] = IF mk \in {"stop", "exc"} THEN @ \cup {r} ELSE @]
   /\ req' = [req EXCEPT ![r] = NoReq]
   /\ lastRet' = <<r, n, mk>>
-  /\ UNCHANGED <<gens, yielded, ended, threadAlive, cur, shutdown, mine>>
+  /\ UNCHANGED <<gens, yielded, delivered, ended, threadAlive, cur, shutdown, mine, taken>>
 
 Next ==
   \/ \E g \in 1..MaxGens : Yield(g) \/ ThreadEnd(g) \/ Stop(g) \/ \E how \in {"done", "fail"} : GenEnd(g, how)
   \/ \E r \in Reqs : InitCall(r) \/ (\E len \in 0..MaxLen, fail \in 0..(MaxLen + 1) : Install(r, len, fail))
                      \/ (\E ok \in BOOLEAN : InitRet(r, ok))
   \/ Shutdown
-  \/ \E r \in Reqs : (\E k \in 1..MaxK : NextCall(r, k))
+  \/ \E r \in Reqs : (\E k \in 1..MaxK : NextCall(r, k)) \/ Take(r)
                      \/ (\E n \in 0..MaxK, mk \in {"none", "stop", "exc", "timeout"} : NextRet(r, n, mk))
 Spec == Init /\ [][Next]_vars
 
